@@ -1,4 +1,5 @@
 pub mod gen;
+pub mod harness;
 pub mod run;
 pub mod src;
 pub mod refmodel {
